@@ -327,7 +327,7 @@ Proof.
     destruct (N.eq_dec j d) as [Hjd | Hjd].
     + rewrite (Hs Hjd), (Hs' Hjd). reflexivity.
     + destruct (Ho Hjd) as (He & Hdn & Hl). destruct (Ho' Hjd) as (He' & Hdn' & Hl').
-      pose proof (Hl _ He' Hdn'). pose proof (Hl' _ He Hdn). lia.
+      pose proof (Hl _ He' Hdn'). pose proof (Hl' _ He Hdn). apply tie_key_inj. lia.
   - pose proof (distb_none g j d Hd) as Hfar.
     pose proof (C2 Hfar) as A. pose proof (C2' Hfar) as A'.
     unfold b1, n1. rewrite A, A'. auto.
